@@ -159,6 +159,18 @@ impl Ctx {
                 facts.push(("subkey signs", s.is_some()));
                 if let Some(s) = &s { facts.push(("subkey signature verifies", guarded(|| s.verify(&sub.key.public_key(), data.as_bytes()).is_ok()).unwrap_or(false))); self.sig_mpis(&s.signature, scalar_len(sub.key.algorithm(), &spec.0), seed, &name); }
             } else {
+                // ECDH: the KDF hash and key-wrap cipher announced in the key are those RFC 9580 11.5.1 prescribes for the curve
+                if let pgp::types::PublicParams::ECDH(ep) = sub.key.public_key().public_params() {
+                    use pgp::types::EcdhPublicParams as E; use pgp::crypto::hash::HashAlgorithm as H;
+                    let got_want = match ep {
+                        E::Curve25519Legacy { hash, alg_sym, .. } => Some(((*hash, *alg_sym), (H::Sha256, SymmetricKeyAlgorithm::AES128))),
+                        E::P256 { hash, alg_sym, .. } => Some(((*hash, *alg_sym), (H::Sha256, SymmetricKeyAlgorithm::AES128))),
+                        E::P384 { hash, alg_sym, .. } => Some(((*hash, *alg_sym), (H::Sha384, SymmetricKeyAlgorithm::AES192))),
+                        E::P521 { hash, alg_sym, .. } => Some(((*hash, *alg_sym), (H::Sha512, SymmetricKeyAlgorithm::AES256))),
+                        _ => None,
+                    };
+                    if let Some((got, want)) = got_want { facts.push(("ecdh kdf hash and kek cipher as RFC 9580 11.5.1 prescribes for the curve", got == want)); }
+                }
                 // encrypt to the subkey, decrypt with the key (v1 and, for v6, v2 containers)
                 for v2 in [false, true] {
                     if v2 && sh.ver != KeyVersion::V6 { continue; }
@@ -215,6 +227,7 @@ fn main() {
             Shape { ver: KeyVersion::V6, primary: KeyType::Ed448, pname: "ed448", subs: vec![(KeyType::X448, false, "x448")], uids: 2, pass: None },
             Shape { ver: KeyVersion::V6, primary: KeyType::ECDSA(ECCCurve::P256), pname: "p256", subs: vec![(KeyType::ECDH(ECCCurve::P256), false, "ecdh-p256")], uids: 1, pass: None },
             Shape { ver: KeyVersion::V6, primary: KeyType::ECDSA(ECCCurve::P384), pname: "p384", subs: vec![(KeyType::ECDSA(ECCCurve::P384), true, "sign-p384")], uids: 1, pass: Some("pass") },
+            Shape { ver: KeyVersion::V6, primary: KeyType::ECDSA(ECCCurve::P521), pname: "p521", subs: vec![(KeyType::ECDH(ECCCurve::P521), false, "ecdh-p521"), (KeyType::ECDH(ECCCurve::P384), false, "ecdh-p384")], uids: 1, pass: None },
         ];
         v.push(Shape { ver: KeyVersion::V4, primary: KeyType::Ed25519Legacy, pname: "eddsa-legacy", subs: vec![(KeyType::ECDH(ECCCurve::Curve25519Legacy), false, "cv25519-comm"), (KeyType::ECDH(ECCCurve::P256), false, "ecdh-p256-stor")], uids: 1, pass: None });
         v.push(Shape { ver: KeyVersion::V6, primary: KeyType::Ed25519, pname: "ed25519", subs: vec![(KeyType::X25519, false, "x25519-stor"), (KeyType::X448, false, "x448-comm")], uids: 1, pass: None });
